@@ -277,3 +277,151 @@ Theorem cy_input_check_total s n fs : cy_input_check s n fs <> CyFuel.
 Proof.
   unfold cy_input_check, cy_input_check_limit. apply cy_fuel_enough; [discriminate|cbn [length]; lia].
 Qed.
+
+(* ================================================================ FindRecursiveDirective: soundness
+   Recursed -> the root directive definition references itself (CsRefPath). *)
+
+Section DirSound.
+  Context (s : schema) (limit : nat) (root : str).
+  Hypothesis Hroot : exists def0, sch_find_dirdef root (sch_dirdefs s) = Some def0.
+
+  Let Path := clos_refl_trans cs_node (CsRefStep s) (CsD root).
+  Let Cycle := clos_trans cs_node (CsRefStep s) (CsD root) (CsD root).
+
+  (* the input value definitions `ivs` belong to the node `cur` *)
+  Definition cy_src (cur : cs_node) (ivs : list inputvaldef) : Prop :=
+    match cur with
+    | CsD d => exists def, sch_find_dirdef d (sch_dirdefs s) = Some def /\ incl ivs (dd_args def)
+    | CsT n => exists t, CsResolves s n t /\ incl ivs (cs_input_fields_of t)
+    end.
+
+  Lemma cy_src_step cur ivs iv y : cy_src cur ivs -> In iv ivs -> CsIvdRefs s iv y -> CsRefStep s cur y.
+  Proof.
+    destruct cur as [d|n]; cbn [cy_src CsRefStep].
+    - intros [def [Hf Hincl]] Hin Hr. exists def, iv. auto.
+    - intros [t [Hr Hincl]] Hin Hy. exists t. split; [assumption|]. right. right. exists iv. auto.
+  Qed.
+
+  Definition cy_good_rec (rec : list str -> list str -> list inputvaldef -> cy_res) : Prop :=
+    forall rest tg cur ivs, Path cur -> cy_src cur ivs -> rec (root :: rest) tg ivs = CyRecursed -> Cycle.
+
+  Lemma cy_close cur : Path cur -> CsRefStep s cur (CsD root) -> Cycle.
+  Proof.
+    intros Hp Hs. unfold Path in Hp. apply clos_rt_rtn1 in Hp.
+    apply clos_rt_t with cur; [now apply clos_rtn1_rt|now apply t_step].
+  Qed.
+
+  Section Level.
+    Context (rec : list str -> list str -> list inputvaldef -> cy_res) (Hrec : cy_good_rec rec).
+
+    Lemma cy_on_directive_sound rest tg cur d :
+      Path cur ->
+      (forall def, sch_find_dirdef (d_name d) (sch_dirdefs s) = Some def -> CsRefStep s cur (CsD (d_name d))) ->
+      cy_on_directive s limit rec (root :: rest) tg d = CyRecursed -> Cycle.
+    Proof.
+      intros Hp Hstep. unfold cy_on_directive.
+      destruct (negb (cy_mem (d_name d) (root :: rest))).
+      - destruct (sch_find_dirdef (d_name d) (sch_dirdefs s)) as [def|] eqn:Hf; [|discriminate].
+        destruct (Nat.ltb limit (length ((root :: rest) ++ [d_name d]))); [discriminate|].
+        change ((root :: rest) ++ [d_name d]) with (root :: (rest ++ [d_name d])).
+        apply (Hrec _ tg (CsD (d_name d))).
+        + eapply rt_trans; [exact Hp|apply rt_step; now apply (Hstep def)].
+        + cbn. exists def. split; [assumption|apply incl_refl].
+      - destruct (cy_first_is (root :: rest) (d_name d)) eqn:Hfirst; [|discriminate].
+        intros _. apply cy_first_is_spec in Hfirst. destruct Hroot as [def0 Hd0].
+        apply (cy_close cur Hp). rewrite Hfirst. apply (Hstep def0). now rewrite <- Hfirst.
+    Qed.
+
+    Lemma cy_on_directives_sound rest tg cur l :
+      Path cur ->
+      (forall d def, In d l -> sch_find_dirdef (d_name d) (sch_dirdefs s) = Some def ->
+                     CsRefStep s cur (CsD (d_name d))) ->
+      cy_on_directives s limit rec (root :: rest) tg l = CyRecursed -> Cycle.
+    Proof.
+      intros Hp. induction l as [|d r IH]; intros Hstep; cbn [cy_on_directives]; [discriminate|].
+      destruct (cy_on_directive s limit rec (root :: rest) tg d) eqn:Hd; try discriminate.
+      - apply IH. intros d' def Hin. apply Hstep. now right.
+      - intros _. apply (cy_on_directive_sound rest tg cur d Hp); [|exact Hd].
+        intros def. apply Hstep. now left.
+    Qed.
+
+    Lemma cy_type_definition_sound rest tg n t :
+      Path (CsT n) -> CsResolves s n t ->
+      cy_type_definition s limit rec (root :: rest) tg t = CyRecursed -> Cycle.
+    Proof.
+      intros Hp Hr. unfold cy_type_definition.
+      destruct (cy_on_directives s limit rec (root :: rest) tg (cy_type_dirs t)) eqn:Hd; try discriminate.
+      - destruct t as [| | | |d0 n0 dirs vs b|d0 n0 dirs fs b]; try discriminate.
+        + (* enum values *)
+          assert (Hall : forall l, incl l vs ->
+                   cy_on_enum_values s limit rec (root :: rest) tg l = CyRecursed -> Cycle).
+          { induction l as [|v r IH]; intros Hincl; cbn [cy_on_enum_values]; [discriminate|].
+            destruct (cy_on_directives s limit rec (root :: rest) tg (ev_dirs (c_val v))) eqn:Hv; try discriminate.
+            - apply IH. intros x Hx. apply Hincl. now right.
+            - intros _. apply (cy_on_directives_sound rest tg (CsT n) (ev_dirs (c_val v)) Hp); [|exact Hv].
+              intros d def Hin Hf. cbn [CsRefStep]. eexists. split; [exact Hr|]. right. left.
+              exists (c_val v), d. split; [cbn [cs_enum_values_of]; apply in_map; apply Hincl; now left|].
+              split; [assumption|]. split; [reflexivity|]. now exists def. }
+          apply Hall. apply incl_refl.
+        + (* input fields *)
+          apply (Hrec rest tg (CsT n)); [exact Hp|]. cbn. eexists. split; [exact Hr|]. apply incl_refl.
+      - intros _. apply (cy_on_directives_sound rest tg (CsT n) (cy_type_dirs t) Hp); [|exact Hd].
+        intros d def Hin Hf. cbn [CsRefStep]. exists t. split; [exact Hr|]. left.
+        exists d. split; [|split; [reflexivity|now exists def]].
+        destruct t; exact Hin.
+    Qed.
+
+    Lemma cy_on_type_sound rest tg cur ivs iv :
+      Path cur -> cy_src cur ivs -> In iv ivs ->
+      cy_on_type s limit rec (root :: rest) tg iv = CyRecursed -> Cycle.
+    Proof.
+      intros Hp Hsrc Hin. unfold cy_on_type.
+      destruct (sch_get_type s (inner_named_type (iv_ty iv))) as [t|] eqn:Hg; [|discriminate].
+      assert (Hr : CsResolves s (inner_named_type (iv_ty iv)) t) by now left.
+      assert (Hp' : Path (CsT (inner_named_type (iv_ty iv)))).
+      { eapply rt_trans; [exact Hp|]. apply rt_step. apply (cy_src_step cur ivs iv _ Hsrc Hin).
+        right. split; [reflexivity|now exists t]. }
+      destruct (cy_mem (et_name t) tg); [discriminate|].
+      destruct (negb (et_builtin t)).
+      - destruct (Nat.ltb limit (length (tg ++ [et_name t]))); [discriminate|].
+        now apply cy_type_definition_sound with (n := inner_named_type (iv_ty iv)).
+      - now apply cy_type_definition_sound with (n := inner_named_type (iv_ty iv)).
+    Qed.
+
+    Lemma cy_ivd_loop_sound rest tg cur ivs0 : Path cur -> cy_src cur ivs0 ->
+      forall ivs, incl ivs ivs0 -> cy_ivd_loop s limit rec (root :: rest) tg ivs = CyRecursed -> Cycle.
+    Proof.
+      intros Hp Hsrc. induction ivs as [|iv r IH]; intros Hincl; cbn [cy_ivd_loop]; [discriminate|].
+      assert (Hin : In iv ivs0) by (apply Hincl; now left).
+      destruct (cy_on_directives s limit rec (root :: rest) tg (iv_dirs iv)) eqn:Hd; try discriminate.
+      - destruct (cy_on_type s limit rec (root :: rest) tg iv) eqn:Ht; try discriminate.
+        + apply IH. intros x Hx. apply Hincl. now right.
+        + intros _. exact (cy_on_type_sound rest tg cur ivs0 iv Hp Hsrc Hin Ht).
+      - intros _. apply (cy_on_directives_sound rest tg cur (iv_dirs iv) Hp); [|exact Hd].
+        intros d def Hdin Hf. apply (cy_src_step cur ivs0 iv _ Hsrc Hin). left.
+        exists d. split; [assumption|]. split; [reflexivity|now exists def].
+    Qed.
+  End Level.
+
+  Lemma cy_dir_ivds_good fuel : cy_good_rec (cy_dir_ivds s limit fuel).
+  Proof.
+    induction fuel as [|k IH]; intros rest tg cur ivs Hp Hsrc; cbn [cy_dir_ivds]; [discriminate|].
+    apply (cy_ivd_loop_sound _ IH rest tg cur ivs Hp Hsrc ivs). apply incl_refl.
+  Qed.
+End DirSound.
+
+(* C14_directive_cycle, the direction that is proved: what the literal search reports is a cycle *)
+Theorem cy_find_recursive_directive_sound s def :
+  sch_find_dirdef (dd_name def) (sch_dirdefs s) = Some def ->
+  cy_find_recursive_directive s def = true ->
+  CsRefPath s (CsD (dd_name def)) (CsD (dd_name def)).
+Proof.
+  intros Hf. unfold cy_find_recursive_directive, cy_dir_check, cy_dir_check_limit.
+  destruct (cy_dir_ivds s cy_default_limit (cy_default_limit + cy_default_limit + 3) [dd_name def] []
+              (dd_args def)) eqn:Hres; try discriminate.
+  intros _. unfold CsRefPath.
+  apply (cy_dir_ivds_good s cy_default_limit (dd_name def) (ex_intro _ def Hf)
+           (cy_default_limit + cy_default_limit + 3)%nat [] [] (CsD (dd_name def))
+           (dd_args def)); [apply rt_refl| |exact Hres].
+  cbn. exists def. split; [assumption|apply incl_refl].
+Qed.
